@@ -80,3 +80,42 @@ Proof.
     { rewrite fmt_zero_pad_low by lia. rewrite <- !app_assoc. reflexivity. }
     rewrite fmt_zero_pad_low by lia. rewrite <- !app_assoc. reflexivity.
 Qed.
+
+(** * NaiveDate *)
+From V Require Import Spec.Gregorian.
+From V Require Proofs.C08 Proofs.C14.
+From V Require Import Proofs.Date.
+Definition year_txt (y : Z) : bytes :=
+  if (0 <=? y) && (y <=? 9999) then low_digits 4 y
+  else (if y <? 0 then 45 else 43) :: fmt_zero_pad 4 (Z.abs y).
+Definition date_txt (y m dd : Z) : bytes := year_txt y ++ 45 :: low_digits 2 m ++ 45 :: low_digits 2 dd.
+
+Lemma low_digits_4_split y : 0 <= y <= 9999 -> low_digits 2 (y / 100) ++ low_digits 2 (y mod 100) = low_digits 4 y.
+Proof.
+  intros H. cbn [low_digits app]. f_equal; [lia|]. f_equal; [lia|]. f_equal; [lia|]. f_equal; lia.
+Qed.
+
+Lemma date_debug_text w y o d : repr y o d ->
+  date_debug w d = wok (w ++ date_txt y (C08.month_of y o) (C08.day_of y o)).
+Proof.
+  intros H. pose proof (C08.repr_md y o d H) as (E1 & _ & E3 & E4 & _ & _ & Hm & Hd & _).
+  pose proof H as (Hy & _). pose proof (year_range_bounds y Hy) as Hyb.
+  assert (Hdd : 1 <= C08.day_of y o <= 31).
+  { pose proof (days_in_month_bounds (is_leap y) (C08.month_of y o)). lia. }
+  unfold date_debug. rewrite E1.
+  unfold Date.d_month in E3. unfold Date.d_day in E4.
+  destruct (Date.d_mdf d) as [mdf| |]; try discriminate. cbn [bind] in *.
+  injection E3 as E3. injection E4 as E4. rewrite E3, E4.
+  change SH_YEAR_LO with 0. change SH_YEAR_HI with 9999. change SH_DATE_SEP1 with 45. change SH_DATE_SEP2 with 45.
+  unfold date_txt, year_txt, wseq, wok, write_char.
+  destruct ((0 <=? y) && (y <=? 9999)) eqn:E.
+  - rewrite C14.div_i32_100, C14.rem_i32_100 by (unfold in_i32, in_range, i32_min, i32_max; lia). cbn [bind].
+    rewrite Z.quot_div_nonneg, Z.rem_mod_nonneg by lia.
+    rewrite !as_u8_small by lia.
+    rewrite write_hundreds_two by lia. rewrite write_hundreds_two by lia. cbn [bind].
+    rewrite write_hundreds_two by lia. cbn [bind]. rewrite write_hundreds_two by lia.
+    rewrite <- low_digits_4_split by lia. rewrite <- !app_assoc. reflexivity.
+  - cbn [bind]. rewrite !as_u8_small by lia.
+    rewrite write_hundreds_two by lia. cbn [bind]. rewrite write_hundreds_two by lia.
+    unfold fmt_plus_05. rewrite <- !app_assoc. reflexivity.
+Qed.
